@@ -166,6 +166,9 @@ def grid_equal(res, tier):
     import gridlab
 
     pairs = [("circular", lambda np_: gridlab.circular_spec(options={"number_of_processors": np_})),
+             # many long contours: the pickled tasks and results of one map are far larger than an OS pipe buffer (a blocked generation shows as
+             # a time-out of the parallel build only)
+             ("circular-16x32", lambda np_: gridlab.circular_spec(options={"number_of_processors": np_, "nx": 16, "ny": 32}, timeout=240)),
              # non-orthogonal without boundary guard cells: many contours stop short of the wall and are extended inside the mapped task
              # (_find_intersection), i.e. the task changes its argument and the change has to come back from the worker
              ("lsn-nonorth-guards0", lambda np_: gridlab.tokamak_spec("lsn", options={"number_of_processors": np_, "orthogonal": False, "y_boundary_guards": 0},
